@@ -49,8 +49,9 @@ pub enum Strategy {
     Random(u64),
     /// random priorities with d priority change points (the schedule length is estimated)
     Pct { seed: u64, d: usize, est_len: usize },
-    /// forced prefix of choices, then default policy (continue the running worker, else lowest id)
-    Prefix(Vec<u8>),
+    /// forced prefix of choices, then the default policy: sticky (continue the running worker if it is enabled, else the
+    /// lowest id) or rotating (the next enabled worker after the one that ran last, cyclically)
+    Prefix(Vec<u8>, bool),
 }
 
 #[derive(Clone, Debug, Default)]
@@ -58,8 +59,10 @@ pub struct StepRec {
     pub chosen: u8,
     pub site: u8,
     pub candidates: Vec<u8>,
-    /// worker that ran during the previous step (if it is among the candidates and another worker is chosen, this is a pre-emption)
+    /// worker that ran during the previous step
     pub prev: Option<u8>,
+    /// what the default policy would have chosen at this step
+    pub default: u8,
 }
 
 #[derive(Clone, Debug, Default)]
@@ -76,6 +79,8 @@ pub struct SchedReport {
     pub workers_started: usize,
     /// per worker: number of times it was granted the get_workload critical section
     pub grants_by_worker: Vec<u64>,
+    /// per worker: number of nodes it started to process (grants of the first best_lb critical section)
+    pub nodes_by_worker: Vec<u64>,
     pub yields_by_site: [u64; 11],
 }
 impl SchedReport {
@@ -84,6 +89,7 @@ impl SchedReport {
         hash_of(&v)
     }
     pub fn grants(&self) -> Vec<u8> { self.steps.iter().map(|s| s.chosen).collect() }
+    pub fn workers_with_nodes(&self) -> usize { self.nodes_by_worker.iter().filter(|n| **n > 0).count() }
 }
 
 struct Inner {
@@ -206,7 +212,7 @@ impl Sched {
         Arc::new(Sched {
             inner: Mutex::new(Inner {
                 expected, workers: vec![WState::NotStarted; expected], turn: None, last_run: None, strategy, rng, prio, change_points,
-                report: SchedReport { grants_by_worker: vec![0; expected], ..Default::default() }, budget, free_for_all: false, use_poll_yields, use_cache_yields,
+                report: SchedReport { grants_by_worker: vec![0; expected], nodes_by_worker: vec![0; expected], ..Default::default() }, budget, free_for_all: false, use_poll_yields, use_cache_yields,
             }),
             cv: Condvar::new(),
             abort,
@@ -233,7 +239,7 @@ impl Sched {
                 WID.with(|w| w.set(Some(i)));
                 IN_CRIT.with(|c| c.set(false));
                 let mut g = self.inner.lock().unwrap();
-                if i >= g.workers.len() { g.workers.resize(i + 1, WState::NotStarted); g.report.grants_by_worker.resize(i + 1, 0); g.prio.push(1 << 39); }
+                if i >= g.workers.len() { g.workers.resize(i + 1, WState::NotStarted); g.report.grants_by_worker.resize(i + 1, 0); g.report.nodes_by_worker.resize(i + 1, 0); g.prio.push(1 << 39); }
                 g.workers[i] = WState::InTransit;
                 g.report.workers_started += 1;
             }
@@ -315,9 +321,14 @@ impl Sched {
             self.cv.notify_all();
             return;
         }
-        let default = match g.last_run { Some(p) if cands.contains(&p) => p, _ => cands[0] };
+        let rotate = matches!(&g.strategy, Strategy::Prefix(_, true));
+        let default = if rotate {
+            match g.last_run { Some(p) => *cands.iter().find(|c| **c > p).unwrap_or(&cands[0]), None => cands[0] }
+        } else {
+            match g.last_run { Some(p) if cands.contains(&p) => p, _ => cands[0] }
+        };
         let chosen: u8 = match &g.strategy {
-            Strategy::Replay(list) | Strategy::Prefix(list) => {
+            Strategy::Replay(list) | Strategy::Prefix(list, _) => {
                 if step < list.len() {
                     if cands.contains(&list[step]) { list[step] } else { g.report.diverged = true; default }
                 } else { default }
@@ -342,38 +353,35 @@ impl Sched {
             }
         }
         if site == Y_GET_WORKLOAD { g.report.grants_by_worker[chosen as usize] += 1; }
+        if site == Y_BEST_LB1 { g.report.nodes_by_worker[chosen as usize] += 1; }
         if (site as usize) < 11 { g.report.yields_by_site[site as usize] += 1; }
         let prev = g.last_run;
-        g.report.steps.push(StepRec { chosen, site, candidates: cands, prev });
+        g.report.steps.push(StepRec { chosen, site, candidates: cands, prev, default });
         g.last_run = Some(chosen);
         g.turn = Some(chosen as usize);
         self.cv.notify_all();
     }
 }
 
-/// Computes the next forced prefix of a stateless depth-first enumeration of
-/// all schedules with at most `max_preempt` pre-emptions, given the steps of the
-/// run that followed the previous prefix. Returns None when the space is exhausted.
-pub fn next_prefix(steps: &[StepRec], max_preempt: usize) -> Option<Vec<u8>> {
-    // default choice at a step: prev if it is a candidate, else the first candidate.
+/// Computes the next forced prefix of a stateless depth-first enumeration of all schedules that deviate at most
+/// `max_dev` times from the default policy (for the sticky policy a deviation while the running worker is enabled is a
+/// pre-emption), given the steps of the run that followed the previous prefix. None when the space is exhausted.
+pub fn next_prefix(steps: &[StepRec], max_dev: usize) -> Option<Vec<u8>> {
     // alternatives are ordered: default first, then the remaining candidates in increasing id.
     let order = |s: &StepRec| -> Vec<u8> {
-        let def = match s.prev { Some(p) if s.candidates.contains(&p) => p, _ => s.candidates[0] };
-        let mut v = vec![def];
-        v.extend(s.candidates.iter().copied().filter(|c| *c != def));
+        let mut v = vec![s.default];
+        v.extend(s.candidates.iter().copied().filter(|c| *c != s.default));
         v
     };
-    let is_preempt = |s: &StepRec, c: u8| -> bool { matches!(s.prev, Some(p) if s.candidates.contains(&p) && p != c) };
-    // number of pre-emptions used before each step
     let mut used = vec![0usize; steps.len() + 1];
-    for (i, s) in steps.iter().enumerate() { used[i + 1] = used[i] + usize::from(is_preempt(s, s.chosen)); }
+    for (i, s) in steps.iter().enumerate() { used[i + 1] = used[i] + usize::from(s.chosen != s.default); }
     for i in (0..steps.len()).rev() {
         let s = &steps[i];
         let ord = order(s);
         let pos = ord.iter().position(|c| *c == s.chosen).unwrap_or(0);
         for alt in ord.iter().skip(pos + 1) {
-            let cost = usize::from(is_preempt(s, *alt));
-            if used[i] + cost <= max_preempt {
+            let cost = usize::from(*alt != s.default);
+            if used[i] + cost <= max_dev {
                 let mut p: Vec<u8> = steps[..i].iter().map(|x| x.chosen).collect();
                 p.push(*alt);
                 return Some(p);
